@@ -35,7 +35,13 @@ func (ec *errorCorrection) calcECC(data []byte, size *dmCodeSize) []byte {
 		ecc := ec.rs.Encode(buff, size.ErrorCorrectionCodewordsPerBlock())
 		// and append them to the result
 		j = 0
-		for i := block; i < size.ErrorCorrectionCodewordsPerBlock()*size.BlockCount; i += size.BlockCount {
+		eccStart := block
+		if size.Rows == 144 && size.Columns == 144 {
+			// blocks 8 and 9 have one data codeword less, so in the interleaved
+			// stream their check words come first: block b continues at (b+2) mod 10
+			eccStart = (block + 2) % size.BlockCount
+		}
+		for i := eccStart; i < size.ErrorCorrectionCodewordsPerBlock()*size.BlockCount; i += size.BlockCount {
 			data[dataSize+i] = byte(ecc[j])
 			j++
 		}
